@@ -132,7 +132,8 @@ class OpticalSetupBlock(Block):
 
         super().__init__(**kwargs)
         self.format = format
-        self.channels = channels if channels is not None else []
+        # the block keeps its own list: the caller may go on using the one he passed
+        self.channels = list(channels) if channels is not None else []
 
     @staticmethod
     def _build(stream, format) -> "OpticalSetupBlock":
